@@ -490,12 +490,13 @@ theorem update_report_text (w : Tape.World) (verbose : Bool) (img : Image) (srcs
     ∃ st secs, performCore w verbose img srcs = .ok st ∧ ImgOk st.img
       ∧ (onDone st.l).out = updateText verbose secs
       ∧ secs.map (·.side) = [0, 1, 2, 3]
-      ∧ ∀ sec ∈ secs, (storedOf sec.items).length = newOn img st.img sec.side := by
+      ∧ (∀ sec ∈ secs, (storedOf sec.items).length = newOn img st.img sec.side)
+      ∧ secs.flatMap flatSec = LEv.beginSide 0 :: batchEvents w srcs img := by
   obtain ⟨st, hst, hok, hcnt⟩ := batch_count w verbose img srcs himg hs
   obtain ⟨secs, hflat, hsides⟩ := (batchEvents_trace w img srcs himg hs).sections [] rfl (by omega)
   simp only [List.flatMap_nil, List.nil_append] at hflat
   have hsides' : secs.map (·.side) = [0, 1, 2, 3] := by rw [hsides]; decide
-  refine ⟨st, secs, hst, hok, ?_, hsides', ?_⟩
+  refine ⟨st, secs, hst, hok, ?_, hsides', ?_, hflat.symm⟩
   · have hl := performCore_events w verbose img srcs st hst
     have hplay : st.l = play { processing := 2, verbose := verbose } (secs.flatMap flatSec) := by
       rw [hl, ← hflat]; rfl
